@@ -255,7 +255,8 @@ func flushMix(c *Ctx, i int, line string) {
 	var frames [][]byte
 	for j := 0; j < K; j++ {
 		s.mu.Lock()
-		s.plans[base+j] = plan{gate: r.Intn(2) == 0, honour: r.Intn(2) == 0}
+		// some answers come from a goroutine of the implementation's own, after the handler has returned
+		s.plans[base+j] = plan{gate: r.Intn(2) == 0, honour: r.Intn(2) == 0, async: r.Intn(3) == 0}
 		s.mu.Unlock()
 		fid := uint32(j + 1)
 		frames = append(frames, s.send(uint16(10+j), func(fc *g.Fcall) error { return g.PackTstat(fc, fid) }))
